@@ -360,6 +360,7 @@ func (t *Terminfo) TParm(s string, p ...interface{}) string {
 	)
 
 	skip := emit
+	nest := 0 // depth of conditionals opened inside a part that is being skipped
 
 	for {
 
@@ -380,14 +381,22 @@ func (t *Terminfo) TParm(s string, p ...interface{}) string {
 			// XXX Error
 			break
 		}
-		if skip == toEnd {
-			if ch == ';' {
-				skip = emit
-			}
-			continue
-		} else if skip == toElse {
-			if ch == 'e' || ch == ';' {
-				skip = emit
+		if skip != emit {
+			// %e and %; belong to the innermost open %?, so those of
+			// conditionals nested in the skipped part must not end the skip.
+			switch ch {
+			case '?':
+				nest++
+			case ';':
+				if nest > 0 {
+					nest--
+				} else {
+					skip = emit
+				}
+			case 'e':
+				if nest == 0 && skip == toElse {
+					skip = emit
+				}
 			}
 			continue
 		}
